@@ -951,7 +951,7 @@ def run(ctx, n_override=None):
                 'different written precision, equal lots, first/second elided in the source, costs, implied rate, zero amounts), exactly '
                 'balanced multi-commodity transactions with @/@@/(@) costs and virtual postings, one elided amount, excess-precision per-unit '
                 'costs at the half-unit boundary, lot sales with {price} [date] (tag), balance assignments/assertions, `0 X @ price`; '
-                'account names of 30..45 characters placed around print's account column (column-3 .. column+0, the longest at the column) with amounts of 9..14 and more characters, so that every gap 0..3 between name and amount occurs; decorated with states on transactions and postings (also a posting mark that differs from the mark of its transaction), codes, auxiliary dates, notes, tags, key: value metadata and unusual '
+                'account names of 30..45 characters placed around the account column of print (column-3 .. column+0, the longest at the column) with amounts of 9..14 and more characters, so that every gap 0..3 between name and amount occurs; decorated with states on transactions and postings (also a posting mark that differs from the mark of its transaction), codes, auxiliary dates, notes, tags, key: value metadata and unusual '
                 'payee/account text; non-trivial = a transaction with at least one such feature in a journal whose printed text re-reads; '
                 'distinct by rendered transaction text')
     n = n_override or ctx.scale(130, 600)
